@@ -293,6 +293,22 @@ where
             air_public_counts.len(),
         )));
     }
+    // The proof targets flatten `trace_next` into a plain vector, so `Some(vec![])` and `None`
+    // become the same circuit. Like the native verifier, reject a next-row opening that is
+    // present for an AIR that does not read the next row.
+    for (i, (air, instance)) in circuit_airs
+        .iter()
+        .zip(&proof.proof.opened_values.instances)
+        .enumerate()
+    {
+        if instance.base_opened_values.trace_next.is_some()
+            && P3BaseAir::main_next_row_columns(air).is_empty()
+        {
+            return Err(VerificationError::InvalidProofShape(format!(
+                "instance {i} opens the next trace row but its AIR does not read it"
+            )));
+        }
+    }
     let verifier_inputs = BatchStarkVerifierInputsBuilder::<SC, Comm, OpeningProof>::allocate(
         circuit,
         &proof.proof,
